@@ -167,19 +167,17 @@ class FeatureIDEReader(TextToModel):
             node.right.right = self._parse_rule(rule[0]).root
 
         elif rule.tag == FeatureIDEReader.TAG_DISJ:
-            if len(rule) > 1:
-                node = Node(ASTOperation.OR)
-                node.left = self._parse_rule(rule[0]).root
-                node.right = self._parse_rule(rule[1]).root
-
-            else:
-                node = self._parse_rule(rule[0]).root
+            node = self._parse_nary_rule(rule, ASTOperation.OR)
 
         elif rule.tag == FeatureIDEReader.TAG_CONJ:
-            if len(rule) > 1:
-                node = Node(ASTOperation.AND)
-                node.left = self._parse_rule(rule[0]).root
-                node.right = self._parse_rule(rule[1]).root
-            else:
-                node = self._parse_rule(rule[0]).root
+            node = self._parse_nary_rule(rule, ASTOperation.AND)
+        else:
+            raise FlamaException(f"Constraint rule not supported in FeatureIDE reader: {rule.tag}")
         return AST(node)
+
+    def _parse_nary_rule(self, rule: Element, operation: ASTOperation) -> Node:
+        """conj and disj rules may have any number of operands: build a left-nested tree."""
+        node = self._parse_rule(rule[0]).root
+        for operand in rule[1:]:
+            node = Node(operation, node, self._parse_rule(operand).root)
+        return node
